@@ -101,7 +101,7 @@ def classify(line):
 
 
 def parse_tag(tag):
-    m = re.match(r"^([0-9a-f]+)_([0-9a-f]+)$", tag)
+    m = re.match(r"^([0-9a-fA-F]+)_([0-9a-fA-F]+)$", tag)      # (a service may hand the tag back with its hex digits in capitals)
     if not m:
         return None
     cid = int(m.group(1), 16)
@@ -290,7 +290,7 @@ class Session(object):
             self.open[ev["id"]]["challenge"] = False
         elif t in ("reply", "unlinked"):
             pt = parse_tag(ev["tag"])
-            if pt and pt[0] in self.open and self.open[pt[0]]["tag"] == ev["tag"]:
+            if pt and pt[0] in self.open and self.open[pt[0]]["tag"] == ev["tag"].lower():
                 st = self.open[pt[0]]
                 txt = ev.get("text", "") if t == "reply" else None
                 if ev["svc"] in st["awaiting"] and (t == "unlinked" or re.match(r"^(OK( |$)|NO |AGAIN |MORE )", txt)):
